@@ -1192,6 +1192,10 @@ class XmlFile(SimpleCorr):
         impl, model, orc, st = self.run_cases(d, blocks, "main")
         bmap = dict(blocks)
         mine = [l for l in orc if (" " + pid + " ") in (" " + l + " ")]
+        if pid == "C02":
+            xl, xst = extreme_stage(pid, d, "xml")
+            mine += xl
+            out.coverage["extremes"] = xst
         dis = self.disagreements(blocks, impl, model)
         known = vlib.known_keys(pid)
         unlisted, seen_known, counts = {}, {}, {}
@@ -1270,6 +1274,18 @@ def _forest_nodes(lines):
     return head, nodes, tail
 
 
+def extreme_stage(pid, d, fmt):
+    """implementation-side round trips at sizes the extracted model cannot afford (harness/src/extreme.rs): byte strings around
+    2^16 / 2^20 in every string-like position, deep chains, wide fan-out, many classes; one child process per case.
+    Returns (oracle lines, stats)."""
+    orc, st = os.path.join(d, "extreme.oracle"), os.path.join(d, "extreme.stats")
+    rc, o, _ = vlib.run([vlib.harness_bin(), "extreme-run", fmt, orc, st], timeout=1200)
+    if rc != 0:
+        return ["extreme-run %s extreme-harness the extremes stage could not run: %s" % (pid, o[-300:].replace("\n", " "))], {}
+    lines = [l.rstrip("\n") for l in open(orc) if (" " + pid + " ") in l]
+    return lines, json.load(open(st))
+
+
 class BinFile(SimpleCorr):
     kind = "binfile"
     model_args = ["real"]
@@ -1301,6 +1317,13 @@ class BinFile(SimpleCorr):
     def known_key(self, pid, oracle_line, case_lines):
         t = oracle_line.split(" ")
         return t[2] if len(t) > 2 else None
+
+    def extra(self, pid, out, tier, seed, d):
+        if pid != "C01":
+            return []
+        lines, st = extreme_stage(pid, d, "bin")
+        out.coverage["extremes"] = st
+        return lines
 
     def shrink_candidates(self, lines):
         head, nodes, tail = _forest_nodes(lines)
